@@ -117,6 +117,8 @@ def _one_case_body(ctx, rng, cidx, sampler_name, pruner_name, nobj, prog, seed, 
              "n_objectives": nobj, "directions": base_dirs, "case_index": cidx, "seed": ctx.seed}
     ctx.case(case0, any(t["state"] == "PRUNED" for t in sa) or nobj > 1)
     ctx.count(f"sampler_{sampler_name}")
+    if sampler_name == "gp":
+        ctx.count("gp_twin_cases")
     ctx.count(f"pruner_{pruner_name}")
     ctx.count("pruning_decisions_true", sum(1 for t in sa if t["state"] == "PRUNED"))
     subsets = [s for r in range(1, nobj + 1) for s in itertools.combinations(range(nobj), r)]
@@ -174,7 +176,6 @@ def run(ctx: Ctx) -> None:
         # the last shard of the quick tier is spent on GP twins (about 4 s per GP trial)
         for g in range(3):   # mandatory: not subject to the time budget (the watchdog still applies)
             one_case(ctx, ctx.rng("gp-case", g), 10 ** 6 + g, force_sampler="gp")
-            ctx.count("gp_twin_cases")
         return
     for c in range(ctx.pick(600, 6000)):
         if not ctx.mine(c):
